@@ -45,7 +45,7 @@ Definition relmod_perm (o:relmod_oracle) : Prop :=
   (forall l, Permutation (o_eps o l) l) /\ (forall l, Permutation (o_types o l) l) /\ (forall l, Permutation (o_views o l) l).
 
 Definition reread_app (o:relmod_oracle) (ap:app) : app :=
-  {| ap_name := ap_name ap; ap_long := ap_long ap; ap_doc := ap_doc ap; ap_attrs := ap_attrs ap; ap_mixins := ap_mixins ap;
+  {| ap_name := ap_name ap; ap_sname := ap_sname ap; ap_long := ap_long ap; ap_doc := ap_doc ap; ap_attrs := ap_attrs ap; ap_mixins := ap_mixins ap;
      ap_eps := o_eps o (ap_eps ap); ap_types := o_types o (ap_types ap); ap_views := o_views o (ap_views ap) |}.
 Definition reread (o:relmod_oracle) (m:module) : module := map (reread_app o) m.
 
@@ -75,11 +75,11 @@ Proof.
   - etransitivity; [apply V1|apply Permutation_sym, V2].
 Qed.
 
-Theorem relmod_normalize_order_independent : forall cm am o1 o2 m,
+Theorem relmod_normalize_order_independent : forall cm am g o1 o2 m,
   relmod_perm o1 -> relmod_perm o2 -> relmod_wf m ->
-  normalize cm am (reread o1 m) = normalize cm am (reread o2 m).
+  normalize cm am g (reread o1 m) = normalize cm am g (reread o2 m).
 Proof.
-  intros cm am o1 o2 m H1 H2 Hwf. apply normalize_order_independent.
+  intros cm am g o1 o2 m H1 H2 Hwf. apply normalize_order_independent.
   unfold reread. induction Hwf as [|ap m Hap Hm IH]; cbn [map]; constructor; [|exact IH].
   apply reread_equiv; assumption.
 Qed.
